@@ -73,7 +73,8 @@ def generate(rng, tier, cls):
 
     bs = rng.choice([None, None, 1, 7, 64, 97])
     return {'actors': [prod], 'schedule': [], 'faults': faults,
-            'block_size': bs, 'stream': gen.gen_stream(rng)[0]}
+            'block_size': bs, 'stream': gen.gen_stream(rng)[0],
+            'stream_extras': gen.gen_stream_extras(rng)}
 
 
 def vclass(v):
@@ -115,9 +116,13 @@ def execute(scn, L):
     bs = scn.get('block_size')
     sk = scn.get('stream') if scn.get('stream') in (
         'sim', 'bytesio', 'buffered') else 'sim'
+    sx = scn.get('stream_extras') or {}
+    skw = {'prefix': sx.get('prefix', 0) if isinstance(sx.get('prefix', 0),
+                                                      int) else 0,
+           'late_rewind': bool(sx.get('late_rewind'))}
     w1 = World(scn, L)
     orig, end, exc = read_all(w1, intact, block_size=bs, stream=sk, buf=97,
-                               actor='orig')
+                               actor='orig', **skw)
     out.absorb(w1)
 
     if end != 'eof' or len(orig) != len(ref):
@@ -150,7 +155,7 @@ def execute(scn, L):
     w2 = World(scn, L)
     ext = apply_faults(w2, intact, faults, actors[0]['file'])
     got, end2, exc2 = read_all(w2, ext, block_size=bs, stream=sk, buf=97,
-                                actor='ext')
+                                actor='ext', **skw)
     out.absorb(w2)
     out.case_key = pipe.scn_digest([ext.hex(), bs])
     out.nontrivial = bool(added) and len(ref) >= 3 and ext != intact
